@@ -800,6 +800,11 @@ func (e *Exec) computeOrdinals() {
 				ccnt[n]++
 				e.callOrd[in] = callSite{n, ccnt[n]}
 			}
+			if _, ok := in.(*ssa.Select); ok {
+				// selects are addressable like calls: `call select#k:`
+				ccnt["select"]++
+				e.callOrd[in] = callSite{"select", ccnt["select"]}
+			}
 			if _, ok := in.(*ssa.Send); ok {
 				// channel sends are addressable like calls: `call send#k:`
 				ccnt["send"]++
